@@ -43,7 +43,7 @@ def multi(name, passes, judge, judge_concrete, per_step=None, final_ic=None, xsd
     return finish(total, name, judge_concrete)
 
 
-CORE = ['ADD', 'REMOVE', 'REPLACE', 'DOTSET', 'DOTNONE']
+CORE = ['ADD', 'REMOVE', 'REPLACE', 'DOTSET', 'DOTNONE', 'SELF']
 
 
 def std_passes(name, tier, scale=1.0):
